@@ -42,7 +42,9 @@ fn attr_sig(attrs: &[syn::Attribute], strip: bool) -> Vec<String> {
 /// structural signature of an enum: attributes (derives as path lists), variants with their
 /// attributes, discriminants and fields with their attributes
 fn enum_sig(e: &syn::ItemEnum, strip: bool) -> Vec<String> {
-    let mut out = vec![format!("vis={} name={} generics={}", e.vis.to_token_stream(), e.ident, e.generics.to_token_stream())];
+    // (Generics::to_tokens prints the parameter list only: the where clause is a separate node)
+    let mut out = vec![format!("vis={} name={} generics={} where={}", e.vis.to_token_stream(), e.ident, e.generics.to_token_stream(),
+                               e.generics.where_clause.as_ref().map(|w| w.to_token_stream().to_string()).unwrap_or_default())];
     out.extend(attr_sig(&e.attrs, strip).into_iter().map(|s| format!("attr {s}")));
     for v in &e.variants {
         out.push(format!("variant {}", v.ident));
